@@ -74,6 +74,7 @@ class KaniResult:
     sat_clauses: int = 0
     program_steps: int = 0
     playback: List[dict] = field(default_factory=list)            # concrete playback blocks
+    macro_diagnostic: str = ""                                    # gecs macro error on a valid corpus program
 
 
 CHECK_RE = re.compile(r"^Check (\d+): (.*)$")
@@ -172,6 +173,14 @@ def parse_output(text, job) -> KaniResult:
         r.verdict = "inconclusive"
         if "error: could not compile" in text or "error[E" in text or re.search(r"^error", text, re.M):
             r.reason = "harness or repository does not compile under Kani"
+            # A diagnostic of the gecs macros themselves on one of OUR corpus programs (which are valid by
+            # construction and compile on the pinned tree) is a verdict on the macro, not an infrastructure
+            # problem: the real macro now REJECTS a valid program. Confirmed natively by the runner.
+            m = re.search(r"^error: ((?:query matched no archetypes in world|OneOf parameter is ambiguous|attribute id \d+ is already assigned|attribute id may not exceed 255|cfg attributes not currently supported)[^\n]*)\n\s*--> (src/(c05|c15|c16)\.rs:\d+)", text, re.M)
+            if m and job.harness.split("::")[0] in ("c05", "c15", "c16"):
+                r.verdict = "violation"
+                r.macro_diagnostic = m.group(1)
+                r.reason = "the real macro rejects a valid corpus program at %s: %s" % (m.group(2), m.group(1)[:160])
         elif "CBMC failed" in text or "Status: ERROR" in text or "out of memory" in text.lower():
             r.reason = "CBMC error / out of memory"
         else:
